@@ -242,18 +242,18 @@ func (c *Ctx) Finish(root string, start time.Time, seed int, configs []string) i
 		"distinct_nontrivial": nontrivial,
 		"rule": "one obligation = one repository-specific rule instantiated on one type-resolved construct (function, call site, field, CFG edge); " +
 			"non-trivial = its verdict required a CFG / dataflow / call-graph computation (table exemptions and anchor failures are not counted); distinct by rule+instance key",
-		"samples":         samples,
-		"known_findings":  knownHits,
-		"configs":         configs,
-		"stats":           c.Stats,
-		"notes":           c.Notes,
-		"exhaustive":      false,
-		"checker_cmd":     "bin/hsverif check " + c.Prop + " " + c.Tier,
-		"trusted_base":    []string{"go/packages, go/types, go/ssa (golang.org/x/tools v0.50.0, go1.26.8)", "anchor, guarded-by, exemption and reference tables compiled into /verif/checker"},
+		"samples":        samples,
+		"known_findings": knownHits,
+		"configs":        configs,
+		"stats":          c.Stats,
+		"notes":          c.Notes,
+		"exhaustive":     false,
+		"checker_cmd":    "bin/hsverif check " + c.Prop + " " + c.Tier,
+		"trusted_base":   []string{"go/packages, go/types, go/ssa (golang.org/x/tools v0.50.0, go1.26.8)", "anchor, guarded-by, exemption and reference tables compiled into /verif/checker"},
 	}
 	ev := evidence{PropertyID: c.Prop, Tier: c.Tier, Seed: seed, Level: "other", Coverage: cov,
 		Assumptions: append([]string{"the analysed source is what `go list ./...` reports for /repo's working tree (default build tags)"}, c.Assume...),
-		WallS: wall, Violations: failing}
+		WallS:       wall, Violations: failing}
 	b, _ := json.MarshalIndent(ev, "", " ")
 	_ = os.MkdirAll(filepath.Join(root, "evidence"), 0o755)
 	if err := os.WriteFile(filepath.Join(root, "evidence", c.Prop+".json"), b, 0o644); err != nil {
